@@ -477,6 +477,8 @@ def run(chk):
 def replay(chk, payload):
     f = payload["failure"]
     c = f["input"]
+    if not isinstance(c, dict) or not ({"M", "N"} <= set(c)) or ("ret_dyn" not in c and "E" not in c):
+        return run(chk)          # constructor-level / multi-construction failures: the whole run is re-created (same seed and tier)
     if "ret_dyn" in c:
         cars = carriers()
         M = [C.unjson_float(x) for x in c["M"]]
